@@ -221,7 +221,7 @@ class _Problem:
         return sorted({k for k in used if used.count(k) > 1}, key=repr)
 
 
-def _run_oniom(ONIOMProblemDecomposition, Fragment, prob, twice, geometry_checks):
+def _run_oniom(ONIOMProblemDecomposition, Fragment, prob, twice, geometry_checks, resimulate=False):
     """Build + simulate (optionally a second time from the same argument objects); arguments must come back unchanged
     and a second build must give the same energy. Returns (energy, fragments of the first build)."""
     snap = prob.state()
@@ -231,6 +231,12 @@ def _run_oniom(ONIOMProblemDecomposition, Fragment, prob, twice, geometry_checks
     geometry_checks(frs)
     e = od.simulate()
     prob.unchanged(snap, "after simulate()")
+    if resimulate:
+        e_again = od.simulate()      # same object, second call: the result is a function of the definition, not of history
+        prob.unchanged(snap, "after a second simulate() on the same object")
+        if not np.isfinite(e_again) or abs(e_again - e) > 1e-8:
+            raise Fail(f"simulate() called twice on one ONIOMProblemDecomposition gives {e!r} then {e_again!r}",
+                       sig="oniom:resimulate-differs")
     if twice:
         frs2 = prob.fragments(Fragment)
         e2 = _build_oniom(ONIOMProblemDecomposition, prob.geometry, frs2).simulate()
@@ -278,6 +284,8 @@ def _share_labels(case, prob):
             labs.add("options-dict-object-shared:non-default-basis-or-frozen")
     if case.get("twice"):
         labs.add("built-twice")
+    if case.get("resimulate"):
+        labs.add("simulate-called-twice-on-one-object")
     return labs
 
 
@@ -319,7 +327,8 @@ def oniom_same_level(ctx):
                 _check_fragment_geometry(sysd["geom"], getattr(frs[i], "geometry", None), m["sel"], m["links"], "model fragment")
             _check_fragment_geometry(sysd["geom"], getattr(frs[i_sys], "geometry", None), None, None, "system fragment")
 
-        e, frs = _run_oniom(ONIOMProblemDecomposition, Fragment, prob, case.get("twice", False), geometry_checks)
+        e, frs = _run_oniom(ONIOMProblemDecomposition, Fragment, prob, case.get("twice", False), geometry_checks,
+                             resimulate=case.get("resimulate", False))
         models = [frs[i] for i in i_mod]
         ref = _ref(sysd["geom"], case["low"], case["low_basis"], sysd["charge"], sysd["spin"])
         if not np.isfinite(e) or abs(e - ref) > ETOL:
@@ -373,7 +382,8 @@ def oniom_whole_model(ctx):
             for m, i in zip(case["extras"], i_ext):
                 _check_fragment_geometry(sysd["geom"], getattr(frs[i], "geometry", None), m["sel"], None, "extra model fragment")
 
-        e, frs = _run_oniom(ONIOMProblemDecomposition, Fragment, prob, case.get("twice", False), geometry_checks)
+        e, frs = _run_oniom(ONIOMProblemDecomposition, Fragment, prob, case.get("twice", False), geometry_checks,
+                             resimulate=case.get("resimulate", False))
         ref = _ref(sysd["geom"], case["high"], case["high_basis"], q, s)
         if not np.isfinite(e) or abs(e - ref) > ETOL:
             raise Fail(f"ONIOM whose model is the whole system (selected_atoms={case['sel']}) gives {e!r}, "
@@ -393,7 +403,25 @@ def oniom_whole_model(ctx):
 
 # ===================================================================================================== DMET
 
-def _run_dmet(geom, charge, spin, basis, fragment_atoms, solvers, loc, optimizer):
+def _dmet_args_unchanged(opts, snap, when):
+    if set(opts) != set(snap):
+        raise Fail(f"{when}: keys of the caller's options dict changed from {sorted(snap)} to {sorted(opts)}", sig="dmet:argument-mutated:keys")
+    for k, v in snap.items():
+        same = (opts[k] is v) if k in ("molecule", "optimizer", "electron_localization") else (opts[k] == v)
+        if not same:
+            raise Fail(f"{when}: the caller's options[{k!r}] was modified: before {v!r}, after {opts[k]!r}", sig=f"dmet:argument-mutated:{k}")
+
+
+def _dmet_simulate(d):
+    try:
+        return float(np.real(d.simulate()))
+    except RuntimeError as ex:
+        if "Failed to converge" in str(ex):   # scipy.optimize.newton: the documented failure mode of the root search
+            raise Skip("dmet-root-search-did-not-converge")
+        raise
+
+
+def _run_dmet(geom, charge, spin, basis, fragment_atoms, solvers, loc, optimizer, resimulate=False, second_build=False, etol=ETOL):
     import scipy.optimize
     from tangelo import SecondQuantizedMolecule
     from tangelo.problem_decomposition import DMETProblemDecomposition
@@ -412,14 +440,12 @@ def _run_dmet(geom, charge, spin, basis, fragment_atoms, solvers, loc, optimizer
             f(root - 0.03)
             return root
         opts["optimizer"] = probing
+    snap = {k: (v if k in ("molecule", "optimizer", "electron_localization") else copy.deepcopy(v)) for k, v in opts.items()}
     d = DMETProblemDecomposition(opts)
+    _dmet_args_unchanged(opts, snap, "after constructing DMETProblemDecomposition")
     d.build()
-    try:
-        e = d.simulate()
-    except RuntimeError as ex:
-        if "Failed to converge" in str(ex):   # scipy.optimize.newton: the documented failure mode of the root search
-            raise Skip("dmet-root-search-did-not-converge")
-        raise
+    e = _dmet_simulate(d)
+    _dmet_args_unchanged(opts, snap, "after build() + simulate()")
     # what simulate() reports, recorded before anything else is evaluated on the object
     e = float(np.real(e))
     mu = float(np.real(d.chemical_potential))
@@ -439,6 +465,20 @@ def _run_dmet(geom, charge, spin, basis, fragment_atoms, solvers, loc, optimizer
             spans = [int(np.shape(f[6])[-1]) for f in stored]
         except (TypeError, IndexError):
             spans = None
+    if resimulate:
+        e_again = _dmet_simulate(d)     # same object, second call
+        if not np.isfinite(e_again) or abs(e_again - e) > etol:
+            raise Fail(f"simulate() called twice on one DMETProblemDecomposition gives {e!r} then {e_again!r} "
+                       f"(fragment_atoms {fragment_atoms}, optimizer {optimizer})", sig="dmet:resimulate-differs")
+    if second_build:
+        d2 = DMETProblemDecomposition(opts)     # the very same options dict object, as a user re-running a calculation would
+        d2.build()
+        e_second = _dmet_simulate(d2)
+        _dmet_args_unchanged(opts, snap, "after a second object was built from the same options and simulated")
+        if not np.isfinite(e_second) or abs(e_second - e) > etol:
+            raise Fail(f"two DMETProblemDecomposition objects built from the same options dict give {e!r} then {e_second!r} "
+                       f"(fragment_atoms requested {fragment_atoms}, second object uses {_peek(d2, 'fragment_atoms')})",
+                       sig="dmet:second-build-differs")
     return {"e": e, "e_attr": None if e_attr is None else float(np.real(e_attr)), "e_at_mu": e_at_mu, "mu": mu, "spans": spans,
             "nao": nao, "resid": resid, "nelec": nelec, "frag_counts": _peek(d, "fragment_atoms")}
 
@@ -462,12 +502,14 @@ def dmet(ctx):
         flat = [a for f in frags for a in f]
         contiguous = flat == list(range(n))
         fa1 = [len(f) for f in frags] if (contiguous and case["count_form"]) else frags
-        r1 = _run_dmet(geom, q, spin, basis, fa1, solvers, case["loc"], case["optimizer"])
+        r1 = _run_dmet(geom, q, spin, basis, fa1, solvers, case["loc"], case["optimizer"], etol=etol,
+                       resimulate=case.get("resimulate", False))
 
         inv = {old: new for new, old in enumerate(perm)}
         frags2 = [[inv[a] for a in (reversed(frags[i]) if case["reverse_within"] else frags[i])] for i in case["frag_order"]]
         solvers2 = solvers if isinstance(solvers, str) else [solvers[i] for i in case["frag_order"]]
-        r2 = _run_dmet(g2, q, spin, basis, frags2, solvers2, case["loc"], case["optimizer"])
+        r2 = _run_dmet(g2, q, spin, basis, frags2, solvers2, case["loc"], case["optimizer"], etol=etol,
+                       second_build=case.get("second_build", False))   # nested id lists: the form that is converted
 
         ne = sum(H.Z[a] for a, _ in geom) - q
         for r, fr, tag in ((r1, frags, "original"), (r2, frags2, "relabelled")):
@@ -492,6 +534,10 @@ def dmet(ctx):
                 "form:" + ("counts" if fa1 is not frags else "nested"), "charge:%+d" % q, "mean-field:" + ("ROHF-triplet" if spin else "RHF"),
                 "solver:" + (solvers if isinstance(solvers, str) else ("mixed" if len(set(solvers)) > 1 else solvers[0])),
                 "fragments=" + str(len(frags))}
+        if case.get("resimulate"):
+            labs.add("simulate-called-twice-on-one-object")
+        if case.get("second_build"):
+            labs.add("second-object-from-same-options-dict")
         if flat != sorted(flat) or [a for f in frags2 for a in f] != list(range(n)):
             labs.add("nested-list-reorders-atoms")
         all_fci = solvers == "fci" or (isinstance(solvers, list) and set(solvers) == {"fci"})
